@@ -28,7 +28,9 @@ var c14Alphabet = []string{
 	"a", "B", "ǅ", "日", "ʰ", "ß", "7", "٣", "²", "Ⅷ", "_", "-", " ", ".", "$", "+", "*", "𝒜", "😀", "́", "é", "Ω",
 }
 
-var c14CapLists = [][]string{nil, {"ID"}, {"id"}, {"aB7", "URL"}, {"ß"}, {"日"}, {"iOS", "gRPC"}}
+var c14CapLists = [][]string{nil, {"ID"}, {"id"}, {"aB7", "URL"}, {"ß"}, {"日"}, {"iOS", "gRPC"},
+	// entries that are not single words: separators, blanks, dots, symbols, the empty entry (the option takes any text)
+	{"Wi-Fi", "e_mail"}, {"a b", "x.y", "a-B"}, {"-", "", "²", "*"}, {"a", "A", "aa"}}
 
 type idReq struct {
 	S    string   `json:"s"`
@@ -58,7 +60,8 @@ func identifierMonitor(ctx *Ctx) (calls int, classes int, viols []Viol, samples 
 	}
 	gen("", maxLen)
 	// real-world-like names, and words that match capitalisation entries at different positions
-	for _, w := range []string{"id", "ID", "user_id", "userId", "ios_version", "iosVersion", "min_ios", "grpc-server", "GRPCServer", "url", "base URL", "ab7", "AB7x", "x.json", "my schema.yaml", "1st", "ünï-cödé", "snake_case_name", "kebab-case-name", "dotted.name", "with space", "trailing_", "__dunder__", "CamelCaseHTTPServer", "ßeta", "日本語", "a²", "ⅧSection"} {
+	for _, w := range []string{"id", "ID", "user_id", "userId", "ios_version", "iosVersion", "min_ios", "grpc-server", "GRPCServer", "url", "base URL", "ab7", "AB7x", "x.json", "my schema.yaml", "1st", "ünï-cödé", "snake_case_name", "kebab-case-name", "dotted.name", "with space", "trailing_", "__dunder__", "CamelCaseHTTPServer", "ßeta", "日本語", "a²", "ⅧSection",
+		"wi-fi", "wi_fi", "wiFi", "WiFi", "wifi", "e-mail", "eMail", "e_mail", "a b", "a-b", "aB", "x.y", "xY", "x-y-z", "a", "aa", "a_a"} {
 		strs = append(strs, w)
 	}
 	var reqs []idReq
@@ -244,7 +247,7 @@ func c14(ctx *Ctx) (*Outcome, error) {
 		c := &sem.Case{Root: root, Sig: fmt.Sprintf("names:%d", i)}
 		switch i % 4 {
 		case 1:
-			c.Args = []string{"--capitalization", sg.PickOf(r, []string{"ID", "id", "iOS,gRPC", "URL,ID,Ab"})}
+			c.Args = []string{"--capitalization", sg.PickOf(r, []string{"ID", "id", "iOS,gRPC", "URL,ID,Ab", "a-b,user_id", "A B,a.b"})}
 		case 2:
 			root.Title = sg.PickOf(r, []string{"my title", "ünï title", "2nd title", "日本", "x²", "title-with-dash", "*"})
 			c.Args = []string{"--struct-name-from-title"}
